@@ -88,6 +88,19 @@ CLAIMED = {
         "correspondence stream; row ids are made explicit in the erasure theorem (they are unobservable).",
    technique="Coq proof (history-erasure simulation over RefDB; abort invisibility over coordinator/tuple models) + differential correspondence with before/after oracle",
    design="7 (C03)"),
+ "C07": dict(
+   text="Props/C07.v, for all histories (any interleaving of any number of sessions, batches, vacuum, reopen; constraints declared at "
+        "CREATE TABLE, by ADD COLUMN or by CREATE UNIQUE INDEX): every table of every committed state of the reference satisfies "
+        "its NOT NULL, UNIQUE and PRIMARY KEY declarations (C07_holds, invariant by induction over the history, including the "
+        "first-committer-wins merge); a rejected statement, batch or commit changes nothing (C07_rejected_as_a_whole); rows of "
+        "sessions that never commit cannot influence acceptance (C07_rolled_back_rows_do_not_block).  The engine is tied to the "
+        "reference on every run by generated histories with colliding keys, and checked by a model-independent oracle on every "
+        "committed state read back.  Seven defects found this way were fixed; update-of-indexed-column (pinned by a suite test), "
+        "two concurrent writers of one key and a refused CREATE UNIQUE INDEX remain as known findings.",
+   note="Trusted: Coq kernel; RefDB as specification; validator / index maintenance tied by correspondence only. DROP COLUMN excluded "
+        "from the invariant theorem (C15).",
+   technique="Coq invariant proof over RefDB histories + differential correspondence + independent constraint oracle on observed states",
+   design="7 (C07)"),
 }
 NOT_YET = "not claimed yet: model and proofs under construction in this session (see DESIGN.md section 10, build order)"
 
